@@ -304,12 +304,19 @@ async def _run_impl(h: Hist):
     A history with `SESSION_FILE` operations runs on a gateway with a persistence file, inside its context."""
     path = _new_file() if has_file(h) else None
     gw, tr = build_gateway(h, persistence_file=path)
+    entered = None
     if path is not None:
         _inline_files(asyncio.get_running_loop())
-        await gw.__aenter__()
-        await settle(gw, path)
+        try:
+            await gw.__aenter__()
+            await settle(gw, path)
+            entered = "ok"
+        except BaseException as e:  # noqa: BLE001  (evidence about the code under test, not a crash of the harness)
+            entered = render_exc(e)
     try:
-        return await _run_ops(h, gw, tr, path)
+        obs = await _run_ops(h, gw, tr, path)
+        obs[0]["entered"] = entered
+        return obs
     finally:
         if path is not None:
             try:
